@@ -33,7 +33,7 @@ K_CCD = 4.0          # x ccd_tolerance (absolute, "in units of distance"); worst
 K_CCDREL = 1e-6      # x scene scale: iteration caps / stagnation, worst consistent observation 1.4e-8 (see C13)
 K_MEMBER = 1e-4      # x scale (incl. distance from the origin): witness points are barycentric combinations in WORLD coordinates;
                      # worst observed 3e-6*|position| (box-ellipsoid 24 m from the origin: 6.8e-5 outside the box)
-TOUCH_BAND = 10.0    # |distance| <= TOUCH_BAND*ccd_tolerance: known finding, not asserted
+TOUCH_BAND = 30.0    # |distance| <= TOUCH_BAND*ccd_tolerance: known finding, not asserted (arbitrary normal seen at 13x)
 DEEP = 0.5
 SMOOTH = ('sphere', 'capsule', 'ellipsoid')
 POLY = ('box', 'mesh')
@@ -211,15 +211,17 @@ def main(ck):
       shifted = rng.rand() < 0.3
       if shifted:
         PB = PB + gg.perp_unit(rng, dvec) * smin * rng.uniform(0, 0.5)
-      info = dict(xml=xml, PA=PA, qA=gg.mat2quat(RA), PB=PB, qB=gg.mat2quat(RB), okind=okind, dkind=dkind, dclass=dclass,
+      info = dict(xml=xml, xml_s=xml_s, PA=PA, qA=gg.mat2quat(RA), PB=PB, qB=gg.mat2quat(RB), okind=okind, dkind=dkind, dclass=dclass,
                   delta=delta, shifted=bool(shifted), tol=tol)
       soft = evaluate(m, d, m_s, d_s, PA, RA, PB, RB, info, tol, True)
+      if soft is None:
+        continue          # the collider killed the worker on this pose (reported)
       if soft:
         ok = False
         for attempt in range(6):
           o = scale * rng.uniform(-2, 2, 3) if attempt < 3 else np.zeros(3)
           RBp = RB if attempt < 3 else gg.axis_angle(gg.rand_unit(rng), 1e-10) @ RB
-          if not evaluate(m, d, m_s, d_s, PA + o, RA, PB + o, RBp, info, tol, False):
+          if evaluate(m, d, m_s, d_s, PA + o, RA, PB + o, RBp, info, tol, False) == []:
             ok = True
             break
         if not ok:
@@ -230,7 +232,13 @@ def main(ck):
 
   def evaluate(m, d, m_s, d_s, PA, RA, PB, RB, info, tol, record):
     soft = []
-    gg.set_pose(lib, m, d, PA, RA, PB, RB)
+    # kinematics only (no collision) in-process: geom frames of the compiled (re-centred) meshes
+    qA, qB = gg.mat2quat(RA), gg.mat2quat(RB)
+    d.mocap_pos[0] = PA
+    d.mocap_quat[0] = qA
+    d.qpos[0:3] = PB
+    d.qpos[3:7] = qB
+    lib.mj_kinematics(m, d)
     S = [gr.shape_from_model(m, d, 0), gr.shape_from_model(m, d, 1)]
     pair = tuple(sorted((S[0].typ, S[1].typ), key=ORDER.get))
     sc = S[0].scale() + S[1].scale() + float(np.linalg.norm(S[0].pos - S[1].pos)) + float(np.linalg.norm(S[1].pos))
@@ -245,14 +253,18 @@ def main(ck):
     def hard(msg, bucket):
       raise Violation(msg + desc(), bucket=bucket)
     distmax = 6 * sc
-    f12, f21 = np.zeros(6), np.zeros(6)
-    d12 = lib.mj_geomDistance(m, d, 0, 1, distmax, f12)
-    d21 = lib.mj_geomDistance(m, d, 1, 0, distmax, f21)
+    convex = 'sphere' not in pair
+    res = gg.guarded_eval(ck, lib, worker, dict(xml=info['xml'], mocap_pos=list(map(float, PA)), mocap_quat=list(map(float, qA)),
+                                                qpos=list(map(float, PB)) + list(map(float, qB)), distmax=float(distmax)),
+                          pair, convex, stats, 'pose')
+    if res is None:
+      return None
+    d12, f12, d21, f21 = res['d12'], res['f12'], res['d21'], res['f21']
     bydelta = (not info['shifted']) and abs(info['delta']) <= TOUCH_BAND * tol
     touching = bydelta or min(abs(d12), abs(d21)) <= TOUCH_BAND * tol
     labels = ['pair:%s-%s' % pair, 'delta:' + info['dclass'], 'orient:' + info['okind'], 'dir:' + info['dkind']]
-    ncon = int(d.ncon)
-    con = d.contact[:ncon].copy() if ncon else None
+    ncon = int(res['ncon'])
+    con = res['con'] if ncon else None
     if touching:
       # ---- known finding: count deviations, assert nothing but boundedness
       stats['touching'] += record
@@ -343,7 +355,7 @@ def main(ck):
           n1 = np.array(con['frame'][k][:3])
           g1, g2 = int(con['geom'][k][0]), int(con['geom'][k][1])
           w = gr.hsup(S[g1], n1) + gr.hsup(S[g2], -n1)
-          multi = not (int(m.opt.disableflags) & E.mjDSBL_MULTICCD)
+          multi = '<flag multiccd="disable"/>' not in info['xml']
           if w + cd > 0.02 * sc + tdist and multi and S[g1].typ in POLY and S[g2].typ in POLY:
             if record:
               finding('multiccd-reversed-normal', 'contact dist %.6g (correct) but along the contact normal %s the overlap width is '
@@ -353,24 +365,33 @@ def main(ck):
             hard('contact normal does not point from geom %d to geom %d: overlap width along it %.6g, dist %.6g' % (g1, g2, w, cd),
                  'contact-normal')
           # exchanged scene: geom 0 is B's shape at B's pose, geom 1 is A's shape at A's pose
-          gg.set_pose(lib, m_s, d_s, PB, RB, PA, RA)
-          if multi and S[g1].typ in POLY and S[g2].typ in POLY:
-            pass        # multiccd manifolds of polytopes: normals are unreliable (finding multiccd-reversed-normal)
-          elif int(d_s.ncon) == 0:
+          res_s = None
+          if not (multi and S[g1].typ in POLY and S[g2].typ in POLY):
+            res_s = gg.guarded_eval(ck, lib, worker, dict(xml=info['xml_s'], mocap_pos=list(map(float, PB)),
+                                                          mocap_quat=list(map(float, qB)),
+                                                          qpos=list(map(float, PA)) + list(map(float, qA))),
+                                    pair, convex, stats, 'exchanged geoms')
+          if res_s is None:
+            pass        # multiccd manifolds of polytopes: normals are unreliable (finding multiccd-reversed-normal) / worker died
+          elif int(res_s['ncon']) == 0:
             softfail('exchanged geoms: no contact (original dist %.6g)' % cd, 'swap-contact')
           else:
-            cs = d_s.contact[:int(d_s.ncon)]
+            cs = res_s['con']
             ks = int(np.argmin(cs['dist']))
-            if ncon == 1 and int(d_s.ncon) == 1 and abs(float(cs['dist'][ks]) - cd) > 2 * tdist:
+            if ncon == 1 and int(res_s['ncon']) == 1 and abs(float(cs['dist'][ks]) - cd) > 2 * tdist:
               softfail('exchanged geoms: contact dist %.17g vs %.17g' % (cs['dist'][ks], cd), 'swap-contact')
             ns = np.array(cs['frame'][ks][:3])
-            same_order = (S[0].typ == S[1].typ) or (ORDER[S[0].typ] < ORDER[S[1].typ]) == (int(cs['geom'][ks][0]) == 1)
-            # after the exchange geom ids are swapped; if the collider keeps type order the normal is physically the same
-            # vector when the types differ, and reversed when the types are equal (roles swap)
-            expect = -1.0 if S[0].typ == S[1].typ else 1.0
-            if expect * float(n1 @ ns) < math.cos(0.2):
-              softfail('exchanged geoms: normal %s vs original %s (expected %s)' % (ns.tolist(), n1.tolist(),
-                                                                                  'reversed' if expect < 0 else 'equal'),
+            # in the exchanged scene geom 0 is B's shape (at B's pose) and geom 1 is A's shape: the normal must again point from
+            # the contact's first geom to its second one (certified by the overlap width along it; comparing the two normal
+            # vectors directly is unsound where the minimum-translation direction is not unique, e.g. near-parallel cylinders)
+            Sx = [S[1], S[0]]
+            gs1, gs2 = int(cs['geom'][ks][0]), int(cs['geom'][ks][1])
+            ws = gr.hsup(Sx[gs1], ns) + gr.hsup(Sx[gs2], -ns)
+            if ws + float(cs['dist'][ks]) > 0.02 * sc + tdist:
+              softfail('exchanged geoms: normal %s does not point from geom %d to geom %d (overlap width along it %.6g, dist '
+                       '%.6g); original normal %s' % (ns.tolist(), gs1, gs2, ws, cs['dist'][ks], n1.tolist()), 'swap-normal')
+            elif S[0].typ == S[1].typ and float(n1 @ ns) > math.cos(0.2):
+              softfail('exchanged geoms of equal type: the normal %s did not reverse (original %s)' % (ns.tolist(), n1.tolist()),
                        'swap-normal')
     if not record:
       return soft
@@ -381,7 +402,12 @@ def main(ck):
                         geomdist=d12, swapped=d21, ncon=ncon, tol=tol), labels=labels)
     return soft
 
+  worker = gg.EngineWorker()
+  r0 = gg.guarded_eval(ck, lib, worker, dict(gg.EPA_CRASH_REPRO), ('cylinder', 'box'), True, stats,
+                       'reproducer of epa-buffer-overrun-iteration-limit')
+  ck.label('epa-crash-reproducer:%s' % ('died' if r0 is None else 'survived'))
   ck.run_hypothesis(test, scene_strategy(), ck.budget(330, 8000), name='convex', shrink=False)
+  worker.stop()
   ck.extra['tolerances'] = dict(K_CCD=K_CCD, K_CCDREL=K_CCDREL, K_MEMBER=K_MEMBER, TOUCH_BAND=TOUCH_BAND, DEEP=DEEP)
   ck.extra['worst_observed_in_units_of_ccd_tolerance'] = worst
   ck.extra['stats'] = stats
